@@ -67,15 +67,20 @@ Section LayoutProofs.
     - simpl. rewrite IH. tauto.
   Qed.
 
+  Lemma dict_hit_spec : forall q evs e, In e evs ->
+    existsb (veqb (col q e)) (filter (mword q) (nodupb value veqb (map (col q) evs))) = mword q (col q e).
+  Proof.
+    intros q evs e He. destruct (mword q (col q e)) eqn:M.
+    - apply existsb_veqb. apply filter_In. split; auto. apply nodupb_in. apply in_map. auto.
+    - destruct (existsb _ _) eqn:E; auto. apply existsb_veqb in E. apply filter_In in E.
+      destruct E as [_ E]. congruence.
+  Qed.
+
   Lemma dict_search_mword : forall q evs,
     dict_search q evs = filter (fun e => mword q (col q e)) evs.
   Proof.
     intros q evs. unfold Layout.dict_search.
-    apply filter_ext_in'. intros e He.
-    destruct (mword q (col q e)) eqn:M.
-    - apply existsb_veqb. apply filter_In. split; auto. apply nodupb_in. apply in_map. auto.
-    - destruct (existsb _ _) eqn:E; auto. apply existsb_veqb in E. apply filter_In in E.
-      destruct E as [_ E]. congruence.
+    apply filter_ext_in'. intros e He. apply dict_hit_spec. auto.
   Qed.
 
   Theorem dict_search_equiv : forall q evs,
@@ -162,20 +167,30 @@ Section LayoutProofs.
     rewrite PE in H. inversion H.
   Qed.
 
-  (* the dictionary path does not look at NegateMatch: equal to the record-level loop only without NOT *)
-  Theorem dict_search_neg_guarded : forall q evs,
-    dict_search_neg event query value col veqb mword false q evs
+  (* NegateMatch on dictionary-encoded blocks: marks of the dictionary search flipped by the record loop =
+     the record-level search, with and without NOT *)
+  Theorem dict_search_neg_equiv : forall neg q evs,
+    dict_search_neg event query value col veqb mword neg q evs
+    = rec_search_neg event query value col mword neg q evs.
+  Proof.
+    intros neg q evs. unfold dict_search_neg, rec_search_neg.
+    apply filter_ext_in'. intros e He. rewrite dict_hit_spec; auto.
+  Qed.
+
+  (* PRE-FIX documentation: the record loop was skipped, equal only without NOT *)
+  Theorem prefix_dict_search_neg_guarded : forall q evs,
+    dict_search_neg_prefix event query value col veqb mword false q evs
     = rec_search_neg event query value col mword false q evs.
   Proof.
-    intros q evs. unfold dict_search_neg, rec_search_neg.
+    intros q evs. unfold dict_search_neg_prefix, rec_search_neg.
     rewrite dict_search_mword. apply filter_ext_in'. intros. destruct (mword q (col q x)); auto.
   Qed.
 End LayoutProofs.
 
-(* witness: two records {w:1},{w:2}, query NOT w-contains-1: record loop returns [2], dictionary path [1] *)
-Theorem dict_search_neg_refuted :
+(* PRE-FIX witness: two records {w:1},{w:2}, query NOT 1: record loop returns [2], the pre-fix dictionary path [1] *)
+Theorem prefix_dict_search_neg_refuted :
   exists evs q,
-    dict_search_neg N N N (fun _ e => e) N.eqb (fun q v => N.eqb q v) true q evs
+    dict_search_neg_prefix N N N (fun _ e => e) N.eqb (fun q v => N.eqb q v) true q evs
     <> rec_search_neg N N N (fun _ e => e) (fun q v => N.eqb q v) true q evs.
 Proof. exists [1; 2]%N, 1%N. vm_compute. discriminate. Qed.
 
